@@ -374,34 +374,13 @@ impl Property for C10 {
         }
         replay_typed::<Case, _>(case, stats, check)
     }
-    fn extra(&self, tier: Tier, seed: u64, stats: &mut Stats) -> Vec<(Value, Failure)> {
+    fn isolated_plans(&self, tier: Tier, seed: u64) -> Vec<Value> {
         // large ontologies: more terms than a 16-bit slot index can address
         let mut plans: Vec<(u32, u32, u32)> = vec![(70_000, 137, (seed % 100) as u32), (65_536, 1, 1 + (seed % 1000) as u32)];
         if tier == Tier::Thorough {
             plans.push((200_000, 49, 3));
             plans.push((131_073, 76, 0));
         }
-        let results: Vec<(Stats, Option<(Value, Failure)>)> = std::thread::scope(|sc| {
-            let hs: Vec<_> = plans
-                .iter()
-                .map(|(n, s, o)| {
-                    let (n, s, o) = (*n, *s, *o);
-                    sc.spawn(move || {
-                        let mut st = Stats::default();
-                        let r = check_bulk(n, s, o, &mut st);
-                        (st, r.err().map(|f| (json!({"bulk": [n, s, o]}), f)))
-                    })
-                })
-                .collect();
-            hs.into_iter().filter_map(|h| h.join().ok()).collect()
-        });
-        let mut out = Vec::new();
-        for (st, r) in results {
-            stats.merge(st);
-            if let Some(x) = r {
-                out.push(x);
-            }
-        }
-        out
+        plans.into_iter().map(|(n, s, o)| json!({"bulk": [n, s, o]})).collect()
     }
 }
